@@ -674,7 +674,11 @@ func (r *c14run) kill(c AtomCase) {
 	spec := store.BigSpec(c.Big.Seed, c.Big.Blocks, c.Big.Seqs, c.Big.Actions)
 	objects := store.ObjectCount(spec)
 
-	cmd := exec.Command(os.Args[0], "-test.run", "^TestC14KillChild$", "-test.count=1")
+	// the deadline only guards the shard against a wedged child; it is far above the ~0.2 s a child needs and never
+	// produces a verdict (label kill_child_error, case skipped)
+	cctx, cancel := context.WithTimeout(context.Background(), 120*time.Second)
+	defer cancel()
+	cmd := exec.CommandContext(cctx, os.Args[0], "-test.run", "^TestC14KillChild$", "-test.count=1")
 	var env []string
 	for _, e := range os.Environ() {
 		if strings.HasPrefix(e, "VERIF_") {
@@ -690,6 +694,11 @@ func (r *c14run) kill(c AtomCase) {
 
 	killed := false
 	var ee *exec.ExitError
+	if cctx.Err() != nil {
+		res.Label("kill_child_error")
+		res.Skip = true
+		return
+	}
 	if errors.As(runErr, &ee) {
 		if ws, ok := ee.Sys().(syscall.WaitStatus); ok && ws.Signaled() && ws.Signal() == syscall.SIGKILL {
 			killed = true
